@@ -33,7 +33,6 @@ from .skip_detector import TestSkipDetector
 from .types import IgnoreDirective, IgnoreType
 from .violation_builder import build_orphaned_violation, build_unjustified_violation
 
-
 _SWITCH_BY_TYPE = {
     IgnoreType.NOQA: "check_noqa",
     IgnoreType.TYPE_IGNORE: "check_type_ignore",
